@@ -704,6 +704,21 @@ func runC16(cfg Config, r *Result) {
 			}
 			sm.Close()
 		}
+		// the syntactic hypothesis of the tie theorems (Props/C16_tie.v): the two exports of one source program —
+		// the compiler-side AST (astProgram) and the evaluator-side AST (ExportProgram) — are related by
+		// CompileSemTie.lrel (decided by CompileSemTieCase.lrelb) whenever the program is in the fragment tfrag_l
+		if tm, e2 := StartModelBig("semtie"); e2 != nil {
+			r.Violate(Violation{Kind: "correspondence", Key: "model-start", Detail: e2.Error()})
+		} else {
+			for i, n := 0, cfg.N(120, 2000); i < n; i++ {
+				if i%4 == 0 {
+					c16AstTie(genFragProgram(cfg.Rng, false, true), r, tm) // mostly outside tfrag_l: for loops
+				} else {
+					c16AstTie(genTieProgram(cfg.Rng), r, tm)
+				}
+			}
+			tm.Close()
+		}
 		// the side conditions of the whole-program theorems on everything the real parser accepts
 		for _, src := range c17Corpus {
 			c16Shape(src, r, em)
